@@ -617,20 +617,32 @@ func genLighthouse(c *hx.Ctx) {
 // ---- T3 ---------------------------------------------------------------------------------------------------
 
 type lhStepDesc struct {
-	Op    string   `json:"op"`
-	From  []string `json:"from"`
-	Msg   any      `json:"msg,omitempty"`
-	Bytes []int    `json:"bytes,omitempty"`
-	Outs  string   `json:"outs,omitempty"`
+	Op     string   `json:"op"`
+	From   []string `json:"from"`
+	Msg    any      `json:"msg,omitempty"`
+	Bytes  []int    `json:"bytes,omitempty"`
+	Outs   string   `json:"outs,omitempty"`
+	Reload []string `json:"reload_lighthouse_hosts_before,omitempty"`
 }
 
 type lhHist struct {
-	v     *nebula.VerifC35
-	prev  nebula.VerifC35Dump
-	steps []string
-	descs []lhStepDesc
-	init  string
-	acc   int // steps with an effect
+	v        *nebula.VerifC35
+	prev     nebula.VerifC35Dump
+	steps    []string
+	descs    []lhStepDesc
+	init     string
+	acc      int           // steps with an effect
+	reloaded *[]netip.Addr // lighthouse.hosts of a reload done since the last operation
+}
+
+// reload: a configuration reload changing lighthouse.hosts, through the real reload callback. It is attached to the next
+// operation of the history (the reload itself must leave addrMap alone: the next dump comparison covers that).
+func (h *lhHist) reload(lhs []netip.Addr) {
+	if err := h.v.ReloadLighthouses(lhs); err != nil {
+		panic(fmt.Sprintf("reload: %v", err))
+	}
+	l := append([]netip.Addr{}, lhs...)
+	h.reloaded = &l
 }
 
 func lhNewHist(cfg nebula.VerifC35Cfg) *lhHist {
@@ -667,7 +679,13 @@ func (h *lhHist) finish(opLit, outs string, desc lhStepDesc) {
 	if outs != "[]" || len(df.keys) > 0 || len(df.recs) > 0 {
 		h.acc++
 	}
-	h.steps = append(h.steps, fmt.Sprintf("(mkHs %s %s %s %s)", opLit, outs, lhKeysLit(df.keys), lhRecsLit(df.recs)))
+	rl := "None"
+	if h.reloaded != nil {
+		rl = "(Some " + lhAddrsLit(*h.reloaded) + ")"
+		desc.Reload = lhStrs(*h.reloaded)
+		h.reloaded = nil
+	}
+	h.steps = append(h.steps, fmt.Sprintf("(mkHs %s %s %s %s %s)", opLit, outs, lhKeysLit(df.keys), lhRecsLit(df.recs), rl))
 	desc.Outs = outs
 	h.descs = append(h.descs, desc)
 	h.prev = d
@@ -813,6 +831,50 @@ func runLighthouse(c *hx.Ctx) {
 		h.msg(y, nebula.VerifC35Marshal(q))
 		h.v.Close()
 		cw.Add(h.lit(cfg), "carry-over-probe", h.acc >= 2, map[string]any{"cfg": lhCfgDesc(cfg), "steps": h.descs})
+	}
+	// 1c. reload probes: lighthouse.hosts is reloaded (strict subsets, supersets, permutations, disjoint sets, empty)
+	// and after every reload query replies, punch requests and host updates arrive from every host that was, is or
+	// never was a lighthouse. What counts is the configuration in force at delivery.
+	for i := 0; i < 40; i++ {
+		p := &lhPool{c: c, used: map[netip.Addr]bool{}}
+		l1, l2, l3, peer := p.vpn(true), p.vpn(c.Chance(0.6)), p.vpn(true), p.vpn(true)
+		about := p.vpn(true)
+		am := i%4 == 3
+		cfg := nebula.VerifC35Cfg{AmLighthouse: am, MyNetworks: lhNets, InitV1: c.Chance(0.5), Respond: true,
+			Lighthouses: []netip.Addr{l1, l2}, StaticHosts: []netip.Addr{l1, l2, l3}}
+		h := lhNewHist(cfg)
+		sets := [][]netip.Addr{{l1}, {l2}, {l2, l1}, {l1, l2, l3}, {l3}, {}, {l1, l1}, {l3, l1}, {l1, l2}}
+		deliver := func() {
+			for _, from := range [][]netip.Addr{{l1}, {l2}, {peer}, {l3}} {
+				if c.Chance(0.25) {
+					continue
+				}
+				ty := []string{"t_host_query_reply", "t_host_punch", "t_host_update"}[c.Intn(3)]
+				m := nebula.VerifC35Msg{Type: uint32(nebula.VerifC35Types[ty]), HasDetails: true}
+				tgt := about
+				if ty == "t_host_update" {
+					tgt = from[0]
+				}
+				if tgt.Is4() && c.Chance(0.5) {
+					m.Old = lhU32(tgt)
+				} else {
+					hl := lhHL(tgt)
+					m.Vpn = &hl
+				}
+				m.V4 = append(m.V4, lhUnderV4(c, true))
+				if c.Chance(0.4) {
+					m.ORelay = []uint32{lhU32(peer)}
+				}
+				h.msg(from, nebula.VerifC35Marshal(m))
+			}
+		}
+		deliver()
+		for k := 0; k < 3+c.Intn(3); k++ {
+			h.reload(sets[c.Intn(len(sets))])
+			deliver()
+		}
+		h.v.Close()
+		cw.Add(h.lit(cfg), "reload-probe", h.acc >= 2, map[string]any{"cfg": lhCfgDesc(cfg), "steps": h.descs})
 	}
 	// 2. random histories
 	for i := 0; i < c.N; i++ {
